@@ -342,6 +342,9 @@ func tableID(st *StoreV, key *BytesV) (string, []*smt.Term) {
 			}
 			return
 		}
+		if b.Tag == "lit:" { // the empty literal []byte{} contributes nothing
+			return
+		}
 		tags = append(tags, b.Tag)
 		args = append(args, b.Args...)
 	}
